@@ -123,6 +123,7 @@ package forwarder
 // tunnel, byte for byte (oracle: TS 29.281 5.1/5.2, TS 38.415 5.5.2; independent of gtpv1's own contracts, which
 // are used only modularly).  Entry assumptions: the QFI is a 6-bit value, the payload fits a UDP datagram.
 //@ func (g *Gtp5g) WritePacket(far *gtp5gnl.FAR, qer *gtp5gnl.QER, pkt []byte) (err error)
+//@   locals hc:*gtp5gnl.HeaderCreation | addr:*net.UDPAddr | msg:gtpv1.Message | n:int | b:[]byte | err:error
 //@   requires g != nil && g.link != nil && g.link.conn != nil && far != nil && len(pkt) <= 65000 && (qer != nil ==> qer.QFI <= 63)
 //@   ensures [nofar] (far.Param == nil || far.Param.Creation == nil) ==> err != nil
 //@   modifies nothing
@@ -142,6 +143,7 @@ package forwarder
 // that carries a QoS flow (QFI != 0), towards that FAR's tunnel; on DROP nothing is written.
 // A-PKTLEN / A-QFI6 (assumed): a buffered packet fits a UDP datagram; a QFI read back from the kernel has six bits.
 //@ func (g *Gtp5g) applyAction(lSeid uint64, farid int, action report.ApplyAction)
+//@   locals oid:gtp5gnl.OID | far:*gtp5gnl.FAR | err:error | pdrid:uint16 | ok:bool | pdrid:uint16 | oid:gtp5gnl.OID | pdr:*gtp5gnl.PDR | err:error | qer:*gtp5gnl.QER | qerId:uint32 | oid:gtp5gnl.OID | q:*gtp5gnl.QER | err:error | pkt:[]byte | ok:bool | err:error
 //@   requires g != nil && g.link != nil && g.link.conn != nil && g.bsnl != nil && g.bsnl.handler != nil
 //@   modifies nothing
 //@   serves C13 C07
@@ -179,6 +181,7 @@ package forwarder
 // this has to happen while the data plane still holds the old FAR (applyAction reads it back), i.e. before UpdateFAROID.
 //@ ghost APPLIED bool
 //@ func (g *Gtp5g) UpdateFAR(lSeid uint64, req *ie.IE) (err error)
+//@   locals farid:uint64 | attrs:[]nl.Attr | act:report.ApplyAction | hasAct:bool | ies:[]*ie.IE | err:error | i:*ie.IE | v:uint32 | err:error | b:[]byte | err:error | xs:[]*ie.IE | err:error | v:nl.AttrList | v:uint8 | err:error | oid:gtp5gnl.OID
 //@   requires g != nil && g.link != nil && g.link.conn != nil && g.bsnl != nil && g.bsnl.handler != nil && req != nil
 //@   modifies *
 //@   serves C13 C02 C07
@@ -204,6 +207,7 @@ package forwarder
 // octet in units of 50 ms (go-pfcp returns it as a time.Duration of that many 50 ms steps); gtp5g's attribute is that
 // octet.  The suggested buffering packets count is passed on unchanged.
 //@ func (g *Gtp5g) CreateBAR(lSeid uint64, req *ie.IE) (err error)
+//@   locals barid:uint64 | attrs:[]nl.Attr | ies:[]*ie.IE | err:error | i:*ie.IE | v:uint8 | err:error | v:time.Duration | err:error | v:uint8 | err:error | oid:gtp5gnl.OID
 //@   requires g != nil && g.link != nil && req != nil
 //@   modifies nothing
 //@   serves C03 C07
@@ -217,6 +221,7 @@ package forwarder
 //@     assert [oid]   len(arg2) == 2 && arg2[0] == lSeid && arg2[1] == barid && arg3 == attrs
 
 //@ func (g *Gtp5g) UpdateBAR(lSeid uint64, req *ie.IE) (err error)
+//@   locals barid:uint64 | attrs:[]nl.Attr | ies:[]*ie.IE | err:error | i:*ie.IE | v:uint8 | err:error | v:time.Duration | err:error | v:uint8 | err:error | oid:gtp5gnl.OID
 //@   requires g != nil && g.link != nil && req != nil
 //@   modifies nothing
 //@   serves C03 C07
@@ -235,6 +240,7 @@ package forwarder
 // Volume Threshold / Volume Quota sub-lists (TS 29.244 8.2.13, 8.2.50): the flag octet first, then each volume whose
 // flag bit is set, under the attribute of its own kind; [len] makes it "exactly those".
 //@ func (g *Gtp5g) newVolumeThreshold(i *ie.IE) (attrs nl.AttrList, err error)
+//@   locals attrs:nl.AttrList | v:*ie.VolumeThresholdFields | err:error
 //@   requires i != nil
 //@   ensures [len] err == nil ==> len(attrs) == 1 + ite(val(i.VolumeThreshold()).Flags & 1 != 0, 1, 0) + ite(val(i.VolumeThreshold()).Flags & 2 != 0, 1, 0) + ite(val(i.VolumeThreshold()).Flags & 4 != 0, 1, 0)
 //@   ensures [err] (err == nil) == ok(i.VolumeThreshold())
@@ -249,6 +255,7 @@ package forwarder
 //@   at call append#4:
 //@     assert [dlvol] v.Flags & 4 != 0 && len(arg1) == 1 && arg1[0].Type == gtp5gnl.URR_VOLUME_THRESHOLD_DVOL && arg1[0].Value == iface(nl.AttrU64(v.DownlinkVolume))
 //@ func (g *Gtp5g) newVolumeQuota(i *ie.IE) (attrs nl.AttrList, err error)
+//@   locals attrs:nl.AttrList | v:*ie.VolumeQuotaFields | err:error
 //@   requires i != nil
 //@   ensures [len] err == nil ==> len(attrs) == 1 + ite(val(i.VolumeQuota()).Flags & 1 != 0, 1, 0) + ite(val(i.VolumeQuota()).Flags & 2 != 0, 1, 0) + ite(val(i.VolumeQuota()).Flags & 4 != 0, 1, 0)
 //@   ensures [err] (err == nil) == ok(i.VolumeQuota())
@@ -264,6 +271,7 @@ package forwarder
 //@     assert [dlvol] v.Flags & 4 != 0 && len(arg1) == 1 && arg1[0].Type == gtp5gnl.URR_VOLUME_QUOTA_DVOL && arg1[0].Value == iface(nl.AttrU64(v.DownlinkVolume))
 
 //@ func (g *Gtp5g) CreateURR(lSeid uint64, req *ie.IE) (err error)
+//@   locals urrid:uint32 | measureMethod:uint8 | rptTrig:report.ReportingTrigger | measurePeriod:time.Duration | attrs:[]nl.Attr | ies:[]*ie.IE | err:error | i:*ie.IE | v:[]byte | v:uint8 | err:error | v:nl.AttrList | err:error | v:nl.AttrList | err:error | oid:gtp5gnl.OID
 //@   requires g != nil && g.link != nil && g.ps != nil && req != nil
 //@   modifies *
 //@   serves C03 C07 C15
@@ -288,6 +296,7 @@ package forwarder
 //@     assert [perio] (rptTrig.Flags & 1 != 0) == (RuleKey(lSeid, 4, uint64(urrid)) in PERIOREQ) || old(RuleKey(lSeid, 4, uint64(urrid)) in PERIOREQ)
 
 //@ func (g *Gtp5g) UpdateURR(lSeid uint64, req *ie.IE) (usars []report.USAReport, err error)
+//@   locals urrid:uint64 | attrs:[]nl.Attr | usars:[]report.USAReport | ies:[]*ie.IE | err:error | i:*ie.IE | v:uint32 | err1:error | v:uint8 | err1:error | v:[]byte | err1:error | rptTrig:report.ReportingTrigger | v:time.Duration | err1:error | v:uint8 | err1:error | v:nl.AttrList | err1:error | v:nl.AttrList | err1:error | oid:gtp5gnl.OID | rs:[]gtp5gnl.USAReport | r:gtp5gnl.USAReport | usar:report.USAReport
 //@   requires g != nil && g.link != nil && g.ps != nil && req != nil
 //@   ensures [perio] err == nil && ok(req.URRID()) && ok(req.ReportingTriggers()) && len(val(req.ReportingTriggers())) >= 1 ==>
 //@                     ((val(req.ReportingTriggers())[0] & 1 != 0) == (RuleKey(lSeid, 4, uint64(val(req.URRID()))) in PERIOREQ))
@@ -315,6 +324,7 @@ package forwarder
 //@                   arg1[0].VolumMeasure.UplinkPktNum == r.VolMeasurement.UplinkPktNum && arg1[0].VolumMeasure.DownlinkPktNum == r.VolMeasurement.DownlinkPktNum
 
 //@ func (g *Gtp5g) RemoveURR(lSeid uint64, req *ie.IE) (usars []report.USAReport, err error)
+//@   locals usars:[]report.USAReport | v:uint32 | err:error | oid:gtp5gnl.OID | rs:[]gtp5gnl.USAReport | r:gtp5gnl.USAReport | usar:report.USAReport
 //@   requires g != nil && g.link != nil && g.ps != nil && req != nil
 //@   ensures [unreg] ok(req.URRID()) ==> !(RuleKey(lSeid, 4, uint64(val(req.URRID()))) in PERIOREQ)
 //@   modifies *
@@ -332,6 +342,7 @@ package forwarder
 // bit rates are split into their high 32 and low 8 bits (gtp5g's representation).
 
 //@ func (g *Gtp5g) CreateQER(lSeid uint64, req *ie.IE) (err error)
+//@   locals qerid:uint64 | attrs:[]nl.Attr | ies:[]*ie.IE | err:error | i:*ie.IE | v:uint32 | err:error | v:uint32 | err:error | v:uint8 | err:error | ul:uint64 | err:error | dl:uint64 | ul:uint64 | err:error | dl:uint64 | v:uint8 | err:error | v:uint8 | err:error | v:uint8 | err:error | oid:gtp5gnl.OID
 //@   requires g != nil && g.link != nil && req != nil
 //@   modifies nothing
 //@   serves C03 C07
@@ -363,6 +374,7 @@ package forwarder
 //@     assert [oid]  len(arg2) == 2 && arg2[0] == lSeid && arg2[1] == qerid && arg3 == attrs
 
 //@ func (g *Gtp5g) UpdateQER(lSeid uint64, req *ie.IE) (err error)
+//@   locals qerid:uint64 | attrs:[]nl.Attr | ies:[]*ie.IE | err:error | i:*ie.IE | v:uint32 | err:error | v:uint32 | err:error | v:uint8 | err:error | ul:uint64 | err:error | dl:uint64 | ul:uint64 | err:error | dl:uint64 | v:uint8 | err:error | v:uint8 | err:error | v:uint8 | err:error | oid:gtp5gnl.OID
 //@   requires g != nil && g.link != nil && req != nil
 //@   modifies nothing
 //@   serves C03 C07
@@ -397,6 +409,7 @@ package forwarder
 // under the session and rule id of the request; nested IEs (PDI, F-TEID, outer header creation) keep their structure.
 
 //@ func (g *Gtp5g) CreatePDR(lSeid uint64, req *ie.IE) (err error)
+//@   locals pdrid:uint64 | attrs:[]nl.Attr | ies:[]*ie.IE | err:error | i:*ie.IE | v:uint16 | err:error | v:uint32 | err:error | v:nl.AttrList | err:error | v:uint8 | err:error | v:uint32 | err:error | v:uint32 | err:error | v:uint32 | err:error | oid:gtp5gnl.OID
 //@   requires g != nil && g.link != nil && req != nil
 //@   modifies FDSRC, FDDST
 //@   serves C02 C07
@@ -422,6 +435,7 @@ package forwarder
 //@     assert [oid]  len(arg2) == 2 && arg2[0] == lSeid && arg2[1] == pdrid && arg3 == attrs
 
 //@ func (g *Gtp5g) UpdatePDR(lSeid uint64, req *ie.IE) (err error)
+//@   locals pdrid:uint64 | attrs:[]nl.Attr | ies:[]*ie.IE | err:error | i:*ie.IE | v:uint16 | err:error | v:uint32 | err:error | v:nl.AttrList | err:error | v:uint8 | err:error | v:uint32 | err:error | v:uint32 | err:error | v:uint32 | err:error | oid:gtp5gnl.OID
 //@   requires g != nil && g.link != nil && req != nil
 //@   modifies FDSRC, FDDST
 //@   serves C02 C07
@@ -445,6 +459,7 @@ package forwarder
 //@     assert [oid]  len(arg2) == 2 && arg2[0] == lSeid && arg2[1] == pdrid && arg3 == attrs
 
 //@ func (g *Gtp5g) newPdi(i *ie.IE) (attrs nl.AttrList, err error)
+//@   locals attrs:nl.AttrList | ies:[]*ie.IE | err:error | srcIf:uint8 | sdfIEs:[]*ie.IE | x:*ie.IE | v:uint8 | err:error | v:*ie.FTEIDFields | err:error | v:*ie.UEIPAddressFields | err:error | x:*ie.IE | v:nl.AttrList | err:error
 //@   requires g != nil && i != nil
 //@   modifies FDSRC, FDDST
 //@   serves C02 C07 C16
@@ -467,6 +482,7 @@ package forwarder
 //@     assert [sdf]   len(arg1) == 1 && arg1[0].Type == gtp5gnl.PDI_SDF_FILTER && arg1[0].Value == iface(v)
 
 //@ func (g *Gtp5g) newForwardingParameter(ies []*ie.IE) (attrs nl.AttrList, err error)
+//@   locals attrs:nl.AttrList | x:*ie.IE | v:*ie.OuterHeaderCreationFields | err:error | hc:nl.AttrList | v:string | err:error | v:uint8 | err:error
 //@   requires g != nil && (forall j int :: 0 <= j && j < len(ies) ==> ies[j] != nil)
 //@   modifies nothing
 //@   serves C02 C07
@@ -490,6 +506,7 @@ package forwarder
 //@     assert [smreq] len(arg1) == 1 && arg1[0].Type == gtp5gnl.FORWARDING_PARAMETER_PFCPSM_REQ_FLAGS && arg1[0].Value == iface(nl.AttrU8(v))
 
 //@ func (g *Gtp5g) CreateFAR(lSeid uint64, req *ie.IE) (err error)
+//@   locals farid:uint64 | attrs:[]nl.Attr | ies:[]*ie.IE | err:error | i:*ie.IE | v:uint32 | err:error | b:[]byte | err:error | act:report.ApplyAction | xs:[]*ie.IE | err:error | v:nl.AttrList | v:uint8 | err:error | oid:gtp5gnl.OID
 //@   requires g != nil && g.link != nil && req != nil
 //@   modifies nothing
 //@   serves C02 C07
@@ -507,6 +524,7 @@ package forwarder
 //@     assert [oid]  len(arg2) == 2 && arg2[0] == lSeid && arg2[1] == farid && arg3 == attrs
 
 //@ func (g *Gtp5g) newSdfFilter(i *ie.IE, srcIf uint8) (attrs nl.AttrList, err error)
+//@   locals attrs:nl.AttrList | v:*ie.SDFFilterFields | err:error | swapSrcDst:bool | fd:nl.AttrList | err:error | x:uint16 | x:uint32 | x:uint32
 //@   requires g != nil && i != nil
 //@   modifies FDSRC, FDDST
 //@   serves C02 C16 C07
@@ -522,6 +540,7 @@ package forwarder
 // Port lists are packed one 32-bit word per entry, first port in the high half, last port (or the same port) in the
 // low half, in the machine's byte order (gtp5g reads them back as u32).
 //@ func convertSlice(ports [][]uint16) (b []byte)
+//@   locals b:[]byte | off:int | p:[]uint16 | x:*uint32
 //@   requires forall i int :: 0 <= i && i < len(ports) ==> len(ports[i]) <= 2
 //@   ensures [len]    len(b) == 4 * len(ports) && fresh(b)
 //@   ensures [single] forall i int :: 0 <= i && i < len(ports) && len(ports[i]) == 1 ==>
@@ -539,6 +558,7 @@ package forwarder
 //@                      b[4*i] == uint8(ports[i][1]) && b[4*i+1] == uint8(ports[i][1] >> 8) && b[4*i+2] == uint8(ports[i][0]) && b[4*i+3] == uint8(ports[i][0] >> 8)
 
 //@ func ParseFlowDescPorts(s string) (vals [][]uint16, err error)
+//@   locals vals:[][]uint16 | port:string | digit:[]string | v:uint64 | err:error | start:uint64 | err:error | end:uint64
 //@   ensures [shape] err == nil ==> forall i int :: 0 <= i && i < len(vals) ==> 1 <= len(vals[i]) && len(vals[i]) <= 2
 //@   modifies nothing
 //@   serves C16 C07
@@ -557,6 +577,7 @@ package forwarder
 //@     assert [two]    len(arg1) == 1 && len(arg1[0]) == 2 && arg1[0][0] == uint16(start) && arg1[0][1] == uint16(end)
 
 //@ func ParseFlowDescIPNet(s string) (n *net.IPNet, err error)
+//@   locals ipnet:*net.IPNet | err:error | ip:net.IP | v4:net.IP | n:int
 //@   ensures [ok]   err == nil ==> n != nil
 //@   ensures [any]  s == "any" || s == "assigned" ==> err == nil && fresh(n)
 //@   modifies nothing
@@ -567,6 +588,7 @@ package forwarder
 //@     assert [hostmask] arg0 == len(ip) * 8 && arg1 == len(ip) * 8
 
 //@ func ParseFlowDesc(s string) (fd *FlowDesc, err error)
+//@   locals fd:*forwarder.FlowDesc | token:[]string | pos:int | v:uint64 | err:error | src:*net.IPNet | err:error | sports:[][]uint16 | dst:*net.IPNet | dports:[][]uint16 | err:error
 //@   ensures [ok]     err == nil ==> fd != nil && fresh(fd) && fd.Src != nil && fd.Dst != nil
 //@   ensures [action] err == nil ==> fd.Action == "permit" && (fd.Dir == "in" || fd.Dir == "out")
 //@   ensures [ports]  err == nil ==> (forall i int :: 0 <= i && i < len(fd.SrcPorts) ==> 1 <= len(fd.SrcPorts[i]) && len(fd.SrcPorts[i]) <= 2) &&
@@ -589,6 +611,7 @@ package forwarder
 //@ ghost FDSRC *net.IPNet
 //@ ghost FDDST *net.IPNet
 //@ func (g *Gtp5g) newFlowDesc(s string, swapSrcDst bool) (attrs nl.AttrList, err error)
+//@   locals attrs:nl.AttrList | fd:*forwarder.FlowDesc | err:error
 //@   requires g != nil
 //@   ensures [nine] err == nil ==> len(attrs) == 9
 //@   modifies FDSRC, FDDST
@@ -627,6 +650,7 @@ package forwarder
 // Start-up (C20): the forwarder starts only against a gtp5g whose version v satisfies 0.9.5 <= v < 0.10.0, in the
 // order go-version implements (A-VERSION).
 //@ func (g *Gtp5g) checkVersion() (err error)
+//@   locals gtp5gVer:string | err:error | expMinVer:*version.Version | expMaxVer:*version.Version | nowVer:*version.Version
 //@   requires g != nil
 //@   ensures [window] err == nil ==> ok(gtp5gnl.GetVersion(g.client)) && ok(version.NewVersion(val(gtp5gnl.GetVersion(g.client)))) &&
 //@                      !val(version.NewVersion(val(gtp5gnl.GetVersion(g.client)))).LessThan(val(version.NewVersion("0.9.5"))) &&
@@ -644,6 +668,7 @@ package forwarder
 //@   modifies *
 
 //@ func NewDriver(wg *sync.WaitGroup, cfg *factory.Config) (d Driver, err error)
+//@   locals cfgGtpu:*factory.Gtpu | gtpuAddr:string | mtu:uint32 | ifInfo:factory.IfInfo | driver:*forwarder.Gtp5g | err:error | link:*forwarder.Gtp5gLink | dnn:factory.DnnList | dst:*net.IPNet | err:error
 //@   requires cfg != nil && wg != nil
 //@   ensures [nogtpu] old(cfg.Gtpu == nil) ==> err != nil
 //@   ensures [kind]   old(cfg.Gtpu != nil && cfg.Gtpu.Forwarder != "gtp5g") ==> err != nil && d == nil
@@ -663,6 +688,7 @@ package forwarder
 // was opened and returns no driver.  A-NLOPEN (assumed): constructors of the netlink libraries return non-nil objects
 // together with a nil error.
 //@ func OpenGtp5g(wg *sync.WaitGroup, addr string, mtu uint32) (g *Gtp5g, err error)
+//@   locals g:*forwarder.Gtp5g | mux:*nl.Mux | err:error | link:*forwarder.Gtp5gLink | conn:*nl.Conn | c:*gtp5gnl.Client | psConn:*nl.Conn | psc:*gtp5gnl.Client | bsnl:*buffnetlink.Server | ps:*perio.Server
 //@   requires wg != nil
 //@   ensures [err]  err != nil ==> g == nil
 //@   ensures [ok]   err == nil ==> g != nil && g.link != nil && g.link.link != nil && g.client != nil && g.bsnl != nil && g.ps != nil
@@ -689,6 +715,7 @@ package forwarder
 // Usage reports read back from gtp5g (C10): each report is converted field by field - URR id, query reference,
 // start / end time, volume and packet counters exactly as measured.
 //@ func (g *Gtp5g) queryURR(lSeid uint64, urrid uint32, ps bool) (usars []report.USAReport, err error)
+//@   locals usars:[]report.USAReport | oid:gtp5gnl.OID | c:*gtp5gnl.Client | rs:[]gtp5gnl.USAReport | err:error | r:gtp5gnl.USAReport | usar:report.USAReport
 //@   requires g != nil && g.link != nil
 //@   ensures [err] err != nil ==> usars == nil
 //@   modifies nothing
@@ -712,6 +739,7 @@ package forwarder
 //@     assert [args] arg0 == lSeid && arg1 == urrid && !arg2
 
 //@ func (g *Gtp5g) queryMultiURR(lSeidUrridsMap map[uint64][]uint32, ps bool) (usars map[uint64][]report.USAReport, err error)
+//@   locals oids:[]gtp5gnl.OID | reports:[]gtp5gnl.USAReport | c:*gtp5gnl.Client | queryNum:int | queryNumOnce:int | seid:uint64 | urrIds:[]uint32 | urrId:uint32 | rs:[]gtp5gnl.USAReport | err:error | rs:[]gtp5gnl.USAReport | err:error | usars:map[uint64][]report.USAReport | r:gtp5gnl.USAReport | usar:report.USAReport
 //@   requires g != nil && g.link != nil
 //@   modifies *
 //@   serves C10 C15 C07
@@ -734,24 +762,28 @@ package forwarder
 //@                   arg1[0].VolumMeasure.UplinkPktNum == r.VolMeasurement.UplinkPktNum && arg1[0].VolumMeasure.DownlinkPktNum == r.VolMeasurement.DownlinkPktNum
 
 //@ func (g *Gtp5g) RemovePDR(lSeid uint64, req *ie.IE) (err error)
+//@   locals v:uint16 | err:error | oid:gtp5gnl.OID
 //@   requires g != nil && g.link != nil && req != nil
 //@   modifies nothing
 //@   serves C02 C07
 //@   at call RemovePDROID:
 //@     assert [oid] len(arg2) == 2 && arg2[0] == lSeid && arg2[1] == uint64(val(req.PDRID()))
 //@ func (g *Gtp5g) RemoveFAR(lSeid uint64, req *ie.IE) (err error)
+//@   locals v:uint32 | err:error | oid:gtp5gnl.OID
 //@   requires g != nil && g.link != nil && req != nil
 //@   modifies nothing
 //@   serves C02 C07
 //@   at call RemoveFAROID:
 //@     assert [oid] len(arg2) == 2 && arg2[0] == lSeid && arg2[1] == uint64(val(req.FARID()))
 //@ func (g *Gtp5g) RemoveQER(lSeid uint64, req *ie.IE) (err error)
+//@   locals v:uint32 | err:error | oid:gtp5gnl.OID
 //@   requires g != nil && g.link != nil && req != nil
 //@   modifies nothing
 //@   serves C03 C07
 //@   at call RemoveQEROID:
 //@     assert [oid] len(arg2) == 2 && arg2[0] == lSeid && arg2[1] == uint64(val(req.QERID()))
 //@ func (g *Gtp5g) RemoveBAR(lSeid uint64, req *ie.IE) (err error)
+//@   locals v:uint8 | err:error | oid:gtp5gnl.OID
 //@   requires g != nil && g.link != nil && req != nil
 //@   modifies nothing
 //@   serves C03 C07
